@@ -88,6 +88,8 @@ type Contract struct {
 	Trusted  bool // contract is assumed, body not verified (listed in assumptions)
 	Bounded  string
 	Variadic bool
+	// SplitPaths: explore the function's own branches one decision at a time (no merging)
+	SplitPaths bool
 
 	modClauses []*Clause
 }
@@ -121,7 +123,7 @@ type PkgContracts struct {
 	Assumes     []string
 }
 
-var kwRe = regexp.MustCompile(`^(func|props|requires|ensures|modifies|loop|invariant|decreases|split|transparent|opaque|end|trusted|bounded)\b`)
+var kwRe = regexp.MustCompile(`^(func|props|requires|ensures|modifies|loop|invariant|decreases|split|paths|transparent|opaque|end|trusted|bounded)\b`)
 
 // ParseDir parses the contract file of one package directory (nil if none).
 func ParseDir(dir, pkgPath string) (*PkgContracts, error) {
@@ -223,6 +225,9 @@ func ParseDir(dir, pkgPath string) (*PkgContracts, error) {
 				lastClause = nil
 			case "trusted":
 				cur.Trusted = true
+				lastClause = nil
+			case "paths":
+				cur.SplitPaths = true
 				lastClause = nil
 			case "bounded":
 				cur.Bounded = rest
@@ -399,6 +404,15 @@ func parseLoopHeader(rest string) (*Loop, error) {
 // translate rewrites ==>, <==>, forall/exists into Go.
 func translate(s string) (string, error) {
 	s = strings.TrimSpace(s)
+	// a quantifier's body extends as far right as possible: if a quantifier starts before the
+	// first top-level (bi-)implication, it swallows it
+	qpos := findQuant(s)
+	if qpos >= 0 {
+		i1, i2 := indexTop(s, "<==>"), indexTop(s, "==>")
+		if (i1 < 0 || qpos < i1) && (i2 < 0 || qpos < i2) {
+			return translateQuant(s, qpos)
+		}
+	}
 	// lowest precedence: <==>
 	if parts := splitTop(s, "<==>"); len(parts) > 1 {
 		if len(parts) != 2 {
@@ -428,6 +442,13 @@ func translate(s string) (string, error) {
 	}
 	// quantifier at depth 0
 	if i := findQuant(s); i >= 0 {
+		return translateQuant(s, i)
+	}
+	return translateGroups(s)
+}
+
+func translateQuant(s string, i int) (string, error) {
+	{
 		prefix := s[:i]
 		q := s[i:]
 		kw := "forall"
@@ -470,7 +491,6 @@ func translate(s string) (string, error) {
 		}
 		return pre + fn + "(" + lo + ", " + hi + ", func(" + v + " int) bool { return " + b + " })", nil
 	}
-	return translateGroups(s)
 }
 
 // translateGroups recursively translates the contents of bracket groups.
